@@ -412,6 +412,16 @@ class StubWriter:
         self.lines.append(code)
 
 
+
+def msvc_array_term(Code, S, PH, StubWriter):
+    """1 if the MSVC array form written by the current source carries its own terminating NUL (since fix 83c27dd80), else 0."""
+    w = StubWriter()
+    Code._write_cstring_const(w, S.escape_byte_string(b"a"), PH.decode(), 65536)
+    t = "\n".join(w.lines)
+    t = t[t.index("{") + 1:t.index("}")] if "{" in t and "}" in t else ""
+    return 1 if len([x for x in t.replace("\n", "").split(",") if x.strip()]) >= 2 else 0
+
+
 def run(ctx):
     import Cython.Compiler.StringEncoding as S
     import Cython.Compiler.Code as Code
@@ -503,7 +513,7 @@ def run(ctx):
                 Code._write_escaped_cstring_const(w, b, PH.decode())
             else:
                 Code._write_cstring_const(w, S.escape_byte_string(b), PH.decode(), 65536)
-            items = [("\n".join(w.lines).encode("latin1"), 0 if c.get("form") == "msvc-array" else 1)]
+            items = [("\n".join(w.lines).encode("latin1"), msvc_array_term(Code, S, PH, StubWriter) if c.get("form") == "msvc-array" else 1)]
             if c.get("form") == "msvc-array":
                 gccs = {m: Gcc(ctx, m, ("-D_MSC_VER=1900",)) for m in MODES}
         elif c.get("kind", "lit") == "charlit":
@@ -788,8 +798,10 @@ def run(ctx):
         if o != want and not (w_items[i][3] == "" and o == "ok "):
             ctx.tie_break("D-py Code._split_characters vs CyVerif.C11.splitCharacters", "%r: impl %s model %s" % (wr_cases[i][:30], want[:80], o[:80]),
                           {"bytes": hx(wr_cases[i]), "kind": "writer"})
+    arr_term = msvc_array_term(Code, S, PH, StubWriter)
+    ctx.notes["msvc_array_form_carries_nul"] = bool(arr_term)
     forms = [(form, extra, pick, term, m) for form, extra, pick, term in
-             (("string", (), 0, 1), ("string-else-branch", (), 2, 1), ("msvc-array", ("-D_MSC_VER=1900",), 2, 0)) for m in MODES]
+             (("string", (), 0, 1), ("string-else-branch", (), 2, 1), ("msvc-array", ("-D_MSC_VER=1900",), 2, arr_term)) for m in MODES]
     with cf.ThreadPoolExecutor(max_workers=6) as ex:
         w_reads = list(ex.map(lambda f: Gcc(ctx, f[4], f[1]).read([(w_items[i][f[2]], f[3]) for i in ok_idx]), forms))
     for (form, extra, pick, term, m), got in zip(forms, w_reads):
